@@ -18,7 +18,7 @@ RULE = ('State machine: rules new_writer (own BytesIO, encoding from latin_1/cp5
         'generated configuration), write(writer, message), close(writer), open_reader(file), read(reader); Hypothesis interleaves '
         'them so several writers and readers are live at once. Every read must return the reader\'s own next message (C01 '
         'equivalence, masking applied) and reader.record_number must advance with its own count only (same base for every reader); a reader must end exactly at the end '
-        'of its file and is then retired. @given: lists of 1..400 messages (encoded size <= 6000 by the reference encoder) built '
+        'of its file and is then retired. @given: lists of 1..400 messages (counts also 255..257, 1000, 1025; encoded size <= 6000 by the reference encoder) built '
         'from up to 10 distinct drawn messages, written and read back in VBS and 1014 form. Non-trivial = >= 2 records of '
         'different shape or a file longer than one block (lists); >= 2 instances live at the same step (machine); distinct by digest.')
 ASSUMPTIONS = ['"at the same time" means interleaved calls in one thread (preemptive threads on one instance are not in the property)',
@@ -51,7 +51,7 @@ def list_cases(draw, tier):
     gen = draw(st.sampled_from([False, False, True]))
     config = draw(gen_iso.configs(max_bits=12)) if gen else PACKAGED
     distinct = [draw(bounded_message(config, codec)) for _ in range(draw(uniform(1, 10)))]
-    count = draw(st.one_of(uniform(1, 12), uniform(40, 120), st.sampled_from([1, 2, 50, 51, 64, 200, 400])))
+    count = draw(st.one_of(uniform(1, 12), uniform(40, 120), st.sampled_from([1, 2, 50, 51, 64, 200, 255, 256, 257, 400, 1000, 1025])))
     pattern = draw(st.lists(uniform(0, len(distinct) - 1), min_size=1, max_size=24))
     msgs = [distinct[pattern[i % len(pattern)]] for i in range(count)]
     blocked = draw(st.booleans())
